@@ -1993,7 +1993,7 @@ impl Noise {
         }
 
         let noise = noise_1(self.seed);
-        self.seed += 1;
+        self.seed = self.seed.wrapping_add(1);
         noise
     }
 }
